@@ -41,7 +41,7 @@ CATALOGUE = {
     "packed": _PACKED_COMMON + ["P.x5c-leaf-not-signer"],
     "packed-self": _PACKED_COMMON + ["P.self-alg-disagrees"],
     "fido-u2f": [
-        "U.sig-missing", "U.x5c-missing", "U.x5c-two", "U.aaguid-nonzero", "U.leaf-rsa", "U.leaf-p384", "U.leaf-secp256k1",
+        "U.sig-missing", "U.x5c-missing", "U.x5c-two", "U.aaguid-nonzero", "U.aaguid-nonzero-as-in-cert-extension", "U.leaf-rsa", "U.leaf-p384", "U.leaf-secp256k1",
         "U.leaf-brainpoolp256r1",
         "U.credkey-okp", "U.credkey-rsa", "U.sig-no-reserved-byte", "U.sig-other-rpidhash", "U.sig-other-cdj",
         "U.sig-other-credid", "U.sig-other-pubkey", "U.sig-other-key", "U.sig-other-credid-rawid-follows"],
@@ -53,7 +53,7 @@ CATALOGUE = {
         "T.sig-other-key", "T.sig-other-certinfo", "T.cert-v1", "T.subject-nonempty", "T.san-missing",
         "T.san-no-manufacturer", "T.san-no-model", "T.san-no-version", "T.vendor-unknown", "T.eku-missing",
         "T.eku-other-first", "T.bc-missing", "T.bc-ca-true", "T.exponent-zero-key-e-ne-default",
-        "T.cose-exponent-above-uint32", "T.san-uri-only", "T.namealg-unmapped-sm3", "T.namealg-unmapped-null", "T.curve-unmapped-p224", "T.curve-unmapped-none", "T.curve-unmapped-bn638", "T.curve-unmapped-p192"],
+        "T.cose-exponent-above-uint32", "T.san-uri-only", "T.certinfo-size-prefixed", "T.namealg-unmapped-sm3", "T.namealg-unmapped-null", "T.curve-unmapped-p224", "T.curve-unmapped-none", "T.curve-unmapped-bn638", "T.curve-unmapped-p192"],
     "apple": ["AP.x5c-missing", "AP.nonce-ext-missing", "AP.nonce-other-authdata", "AP.nonce-other-cdj",
               "AP.certkey-ne-credkey"],
     "android-key": [
@@ -70,7 +70,8 @@ CATALOGUE = {
 
 # faults that make the response malformed (client data that is not UTF-8 text): rejection is still demanded, but they are
 # not "well-formed responses rejected for a semantic reason"
-MALFORMED = {"R.cdj-undecodable-byte-in-origin", "R.cdj-undecodable-byte-in-type"}
+MALFORMED = {"R.cdj-undecodable-byte-in-origin", "R.cdj-undecodable-byte-in-type",
+             "T.certinfo-size-prefixed"}        # certInfo is then not a TPMS_ATTEST at all (its type field is garbage)
 
 FORMATS = ["none", "packed", "packed-self", "fido-u2f", "tpm", "apple", "android-key", "android-safetynet"]
 FMT_STRING = {f: ("packed" if f == "packed-self" else f) for f in FORMATS}   # the text in attObj["fmt"]
@@ -111,6 +112,8 @@ class RegRequest:
     chain_faults: set = field(default_factory=set)
     faults: set = field(default_factory=set)  # ceremony- and format-level names ("C." names are also accepted here)
     base_time: Optional[datetime.datetime] = None
+    chain_validity: Optional[dict] = None     # validity windows (offsets from base_time) per chain member, see ca.build_chain
+    snet_ts_shift_ms: int = 0                 # SafetyNet: timestampMs = base_time + this many milliseconds
     tpm_name_alg: int = tpm.TPM_ALG_SHA256
     tpm_vendor: str = "id:414D4400"
     attobj_order: Optional[str] = None                  # the attestation object's members in another order
@@ -321,7 +324,7 @@ def _flags(b: _Build) -> int:
 def _aaguid(b: _Build) -> bytes:
     if b.req.fmt != "fido-u2f":
         return b.cred.aaguid
-    if b.has("U.aaguid-nonzero"):
+    if b.has("U.aaguid-nonzero") or b.has("U.aaguid-nonzero-as-in-cert-extension"):
         return b.cred.aaguid if any(b.cred.aaguid) else bytes(range(1, 17))
     return bytes(16)                                    # CTAP1/U2F authenticators have no AAGUID
 
@@ -384,7 +387,7 @@ def _credential(b: _Build, attestation_object: bytes) -> dict:
 def _chain(b: _Build, leaf_priv, **kwargs) -> ca.Chain:
     """Attestation chain whose leaf certifies `leaf_priv`'s public key; records chain and trust roots."""
     chain = ca.build_chain(leaf_priv.public_key(), leaf_privkey=leaf_priv, n_intermediates=b.req.n_intermediates,
-                           base_time=b.base_time, faults=b.chain_faults, **kwargs)
+                           base_time=b.base_time, faults=b.chain_faults, validity=b.req.chain_validity, **kwargs)
     b.chain = chain
     b.roots = {FMT_STRING[b.req.fmt]: [chain.root_pem()]}
     return chain
@@ -495,7 +498,12 @@ def _u2f(b: _Build) -> dict:
     key = _u2f_attestation_key(b)
     signer = _other_key(key, b.cred.priv) if b.has("U.sig-other-key") else key
     data = _u2f_verification_data(b)
-    _chain(b, key, leaf_subject=ca.name("Sim U2F Attestation", c="US", o="Sim Authenticators"))
+    exts = []
+    if b.has("U.aaguid-nonzero-as-in-cert-extension"):
+        # the attestation certificate names the authenticator model (id-fido-gen-ce-aaguid) and the authenticator data carries
+        # that same, non-zero AAGUID: for fido-u2f the AAGUID must still be zero (the U2F signature does not cover it)
+        exts = [(x509.UnrecognizedExtension(x509.ObjectIdentifier("1.3.6.1.4.1.45724.1.1.4"), b"\x04\x10" + _aaguid(b)), False)]
+    _chain(b, key, leaf_subject=ca.name("Sim U2F Attestation", c="US", o="Sim Authenticators"), leaf_extensions=exts)
     x5c = _x5c(b) + ([b.chain.root.public_bytes(serialization.Encoding.DER)] if b.has("U.x5c-two") else [])
     sign_alg = core.RS256 if _is_rsa(signer) else core.ES256    # U2F signatures are ECDSA/SHA-256
     b.meta.update(att_key=key, signer=signer, signed_data=data, verification_data=data)
@@ -647,6 +655,10 @@ def _tpm(b: _Build) -> dict:
     signer = _other_key(aik, b.cred.priv) if b.has("T.sig-other-key") else aik
     _chain(b, aik, **_tpm_aik_profile(b))
     b.meta.update(att_key=aik, att_alg=alg, signer=signer, signed_data=signed, cert_info=cert_info, pub_area=pub_area)
+    if b.has("T.certinfo-size-prefixed"):
+        # what is presented - and genuinely signed - as certInfo is a TPM2B_ATTEST (2-byte size, then the structure): the signed
+        # octets then do not begin with TPM_GENERATED_VALUE
+        cert_info = signed = len(cert_info).to_bytes(2, "big") + cert_info
     stmt = {"ver": "1.2" if b.has("T.ver-1.2") else "2.0", "alg": alg, "x5c": _x5c(b),
             "sig": core.sign(signer, alg, signed), "certInfo": cert_info, "pubArea": pub_area}
     return _without(stmt, b, {"T.certinfo-missing": "certInfo", "T.pubarea-missing": "pubArea", "T.alg-missing": "alg",
@@ -733,7 +745,7 @@ def _android_key(b: _Build) -> dict:
 def _snet_timestamp(b: _Build, shift: int) -> int:
     """timestampMs is milliseconds since the epoch; the unit-confusion faults put the right instant in the wrong unit (which,
     read as milliseconds, is decades away from the verifier's clock)"""
-    t = b.base_time.timestamp() + shift
+    t = b.base_time.timestamp() + shift + b.req.snet_ts_shift_ms / 1000.0
     if b.has("S.ts-in-seconds"):
         return int(t)
     if b.has("S.ts-in-microseconds"):
